@@ -683,7 +683,10 @@ enum sim_end sim_run(uint64_t step_budget)
             }
             if (all_done)
                 return SIM_END_DONE;
-            if (next_wake == UINT64_MAX)
+            /* a wake-up date more than a simulated day away is "never": the
+             * clock is not moved there (a timer armed for thousands of years
+             * must show as the stall it is) */
+            if (next_wake == UINT64_MAX || (next_wake > S.now && next_wake - S.now > UINT64_C(27000000) * 86400))
                 return SIM_END_QUIESCENT;
             /* discrete-event jump */
             if (next_wake > S.now)
